@@ -44,6 +44,9 @@ class SimThread:
     def join(self, timeout=None):
         if self._st is None:
             raise RuntimeError('cannot join thread before it is started')
+        if self._st is self._kernel.current:
+            raise RuntimeError('cannot join current thread')
+        K.check_timeout(timeout)
         self._kernel.join(self._st, timeout)
 
     def is_alive(self):
